@@ -15,6 +15,7 @@ RULE = ('cases = generated mapping inputs with independent gene orders for query
         'every (cell, voted node with >=2 children) is recomputed from the input files and the traced subsets; '
         'non-trivial = the case contains a decided node (no correlation tie within tolerance) where >=2 distinct children received votes, '
         'or a node with factor<1 and >=3 genes; distinct = distinct spec hash')
+RULE += '; 1 case in 12 has 257-300 leaves below one parent'
 ASSUMPTIONS = ['correlation ties within 1e-9 (5e-5 for float32 input) are compared on feasibility bounds only and counted as ambiguous',
                'the guarded trace reports the subsets actually drawn (a change that uses other subsets than it reports shows up as a vote mismatch)']
 
